@@ -320,6 +320,12 @@ def generate(rng, tier):
             ws.append(b'raw-after-upgrade')
         else:           # early close by a peer
             extra['close'] = rng.choice(['client', 'origin'])
+        if rng.random() < 0.25:     # a first request the handler rejects or that names nothing, followed by more requests
+            first = rng.choice([b'GET / HTTP/2.0\r\n\r\n', b'GET /nowhere HTTP/1.1\r\nHost: x\r\n\r\n', b'GET http://a.com:0/ HTTP/1.1\r\n\r\n',
+                                b'GET http://a.com:70000/ HTTP/1.1\r\n\r\n', b'GET http://caf\xe9.com/ HTTP/1.1\r\n\r\n', b'BROKEN\r\n\r\n',
+                                b'GET http://a.com/ HTTP/1.0\r\n\r\n', b'POST /a9 HTTP/1.1\r\nContent-Length: 3\r\n\r\nabc',
+                                b'GET /a9 HTTP/1.1\r\nConnection: Upgrade\r\nUpgrade: h2c\r\n\r\n'])
+            ws = [first] + ws
         pk, segs = rand_packing(rng, ws)
         st, script = interleave(rng, segs, 1 if mode == 'forward' else len(rq))
         if extra.get('close'):
